@@ -9,4 +9,7 @@ class Spec(runner.Spec):
     # `consts`: the descriptor constants the codec sees, re-derived from the ASN.1 source of the zoo
     streams = [uper_streams.Shapes(), uper_streams.DescConsistency(), consts_stream.ConstsFromSource("C03")]
     assumptions = ASSUMPTIONS + ["the property quantifies over source schemas, the codec sees descriptors: stream `consts` compares every zoo type's descriptor constants with an expectation derived from the ASN.1 text by tools/consts_stream.py (own parser) and with Codegen/ConstsModel.lean; recorded deviations of the generator (findings of C08) are accepted as coded"]
+    # Props/Scope.lean: the faithful model of the Scope state machine (Uper/Scope.lean) refines the
+    # compositional mirror; the driver answers every request with both and reports `scope-mismatch`
+    extra_prop_files = ["Scope"]
     trusted_base = TRUSTED
